@@ -16,7 +16,9 @@ ORACLES = ['installed', 'image']
 RULE = ('one run = seeded universe (ids colliding across lexicons at a per-run rate, specials '
         'in every string, every optional attribute present/absent, extensions using the '
         'documented patterns) + 0-4 prior ops + add(R) by a random route under random '
-        'BATCH_SIZE in {1,2,3,5,8,1000}, short reads and quoting style + optional restart; '
+        'BATCH_SIZE in {1,2,3,5,8,1000}, short reads, quoting style and lexical style (attribute '
+        'order, CDATA sections, character references, comments containing fake <Lexicon> tags) '
+        '+ optional restart; '
         'oracle after every op: complete field-exact model image of every installed extension '
         'family (lists compared whole, so extras fail). distinct = event digests; non-trivial '
         '= the final add installed >=1 lexicon with >=1 entry and >=1 synset into a non-empty '
@@ -34,7 +36,7 @@ def build(seed):
     u = U.generate(rng, prof)
     prng = subseed(seed, 'plan')
     m = Model(u)
-    swarm = {'routes': True, 'batch': True, 'short_reads': True}
+    swarm = {'routes': True, 'batch': True, 'short_reads': True, 'style': True}
     plan = P.history(prng, u, prng.randint(0, 4), swarm, model=m)
     plan = [op for op in plan if op['op'] != 'checkpoint']
     cands = [r for r in u['resources'] if m.plan_add(r['lexicons'])] or u['resources']
